@@ -47,6 +47,11 @@ class C02Facade(Harness):
                         continue
                     yield (f"{form}-N{n}-S{_shape_name(shape)}-i{inc}-w{wk}-g{gap}",
                            dict(N=n, shape=list(shape), inc=incl, weights=wk, form=form, gap=gap, spec="static", nan=(n <= 2)))
+        # an axis of three bins with gaps (one or both junctions): bins after a gap keep their own position in the masked edge array
+        for (n, shape) in ([(1, (3, 1))] if tier == "quick" else [(1, (3, 1)), (2, (3, 1)), (1, (1, 3)), (1, (3, 2))]):
+            ax = 0 if shape[0] == 3 else 1
+            for wk in ("none", "int"):
+                yield (f"rows-N{n}-S{_shape_name(shape)}-iTF-w{wk}-g{ax}-three", dict(N=n, shape=list(shape), inc=[True, False], weights=wk, form="rows", gap=ax, spec="static", nan=False))
         # numpy-style edge arrays (right edge always included by static_binning's default)
         for (n, shape) in ([(2, (2, 1)), (1, (1, 2, 2))] if tier == "quick" else [(2, (2, 1)), (2, (1, 2)), (3, (2, 2)), (2, (1, 2, 2))]):
             yield (f"rows-N{n}-S{_shape_name(shape)}-edges-wint", dict(N=n, shape=list(shape), inc=[True] * len(shape), weights="int",
